@@ -281,10 +281,26 @@ impl LogState {
                 // TODO(maybe): Reuse status buffer between iterations.
                 self.status = String::new();
             }
+            // A record that stands behind a piece of the script's own output
+            // (a line the script had not finished when the record was
+            // written): show the piece, then treat the record like any other.
+            if let Some(i) = line.find("@@REDO:") {
+                if i > 0 && Meta::parse(line[i..].trim_end_matches('\n')).is_ok() {
+                    if auto_bool_arg(&matches, "details").unwrap_or(true) {
+                        if interrupted != 0 {
+                            let d = logs::reduce_depth();
+                            logs::meta("resumed", t.as_str(), None);
+                            logs::set_depth(d);
+                            interrupted = 0;
+                        }
+                        logs::write(&clean_line(&line[..i]));
+                        lines_written += 1;
+                    }
+                    line = line[i..].to_string();
+                }
+            }
             match Meta::parse(line.trim_end_matches('\n')) {
                 Ok(g) => {
-                    // FIXME: print prefix if @@REDO is not at start of line.
-                    //   logs::PrettyLog does it, but only if we actually call .write().
                     let relname = rel(&topdir, mydir, g.text())?
                         .into_os_string()
                         .into_string()
